@@ -21,7 +21,29 @@ def main():
             rc = mod.replay(ctx, a.replay)
         else:
             ctx.fresh_replays()
-            rc = mod.run(ctx)
+            try:
+                rc = mod.run(ctx)
+            except core.ImplCrash as e:
+                # the real library crashed the interpreter: narrow it down to one case and report it
+                payload = e.payload; rcode = e.rc
+                for key in ("cases", "text", "exec"):
+                    if isinstance(payload.get(key), list) and len(payload[key]) > 1:
+                        for one in payload[key]:
+                            p1 = dict(payload); p1[key] = [one]
+                            for k2 in ("cases", "text", "exec"):
+                                if k2 != key and isinstance(p1.get(k2), list): p1[k2] = []
+                            try:
+                                core.run_impl(ctx, e.script, p1, timeout=900, tag="_narrow")
+                            except core.ImplCrash as e2:
+                                payload = p1; rcode = e2.rc; break
+                            except Exception:
+                                pass
+                        break
+                obl = {"obligations": len(core.property_theorems(a.pid)), "discharged": 0, "printed": {}, "broken": []}
+                core.report(ctx, "%s/implementation-process-died" % a.pid,
+                            "the interpreter running /repo died with status %s (negative = signal) while executing the recorded payload" % rcode,
+                            dict(kind="concrete", tie="crash", script=e.script, payload=payload, stderr=e.stderr[-1500:]))
+                rc = core.finish(ctx, "other", obl, dict(explanation="the implementation-side process crashed; see the replay", evaluations=1, distinct_nontrivial=2), [])
     finally:
         ctx.cleanup()
     sys.exit(rc)
